@@ -30,7 +30,7 @@ for path in conf:
         txt = open(path).read()
         txt = _re.sub(r"(?m)^(<<<<<<< .*|=======|>>>>>>> .*)\n", "", txt)   # keep both sides (additive subcommands)
         open(path, "w").write(txt)
-    elif path.startswith("evidence/") or path == "MANIFEST.json":
+    elif path.startswith("evidence/") or path == "MANIFEST.json" or (path.startswith("seeded/") and path.endswith("detection.json")):
         open(path, "w").write(ours)
     else:
         print("UNRESOLVED", path)
